@@ -1,12 +1,14 @@
 package enga
 
 import (
-	"sort"
 	"errors"
 	"fmt"
 	"os"
+	"os/signal"
 	"path/filepath"
+	"sort"
 	"strings"
+	"syscall"
 
 	krpretty "github.com/kr/pretty"
 	tpretty "github.com/tidwall/pretty"
@@ -42,6 +44,11 @@ type Op struct {
 	// Empty: MatchSnapshot(t) with no values at all (an empty slice spread into the call):
 	// a warning is logged, no slot is addressed, no ordinal consumed
 	Empty bool `json:"empty,omitempty"`
+	// Fault: while this call runs, writes that take a file beyond FaultAt bytes fail with
+	// EFBIG (RLIMIT_FSIZE; directories and empty files can still be created, files can be
+	// opened, truncated and closed): the disk is full / a quota is hit during this call only
+	Fault   bool  `json:"fault,omitempty"`
+	FaultAt int64 `json:"fault_at,omitempty"`
 }
 
 func (o Op) standalone() bool { return o.API == "ssnap" || o.API == "sjson" }
@@ -245,6 +252,55 @@ func (v Val) arg() any {
 	}
 }
 
+var fsizeOrig syscall.Rlimit
+
+func init() {
+	// without this a write beyond RLIMIT_FSIZE kills the process instead of returning EFBIG
+	signal.Ignore(syscall.SIGXFSZ)
+	syscall.Getrlimit(syscall.RLIMIT_FSIZE, &fsizeOrig)
+}
+
+func faultOn(at int64) {
+	if err := syscall.Setrlimit(syscall.RLIMIT_FSIZE, &syscall.Rlimit{Cur: uint64(at), Max: fsizeOrig.Max}); err != nil {
+		panic("cannot lower RLIMIT_FSIZE: " + err.Error())
+	}
+}
+
+func faultOff() {
+	if err := syscall.Setrlimit(syscall.RLIMIT_FSIZE, &fsizeOrig); err != nil {
+		panic("cannot restore RLIMIT_FSIZE: " + err.Error())
+	}
+}
+
+// resync makes the model agree with what a failed (and reported) write left at path. A
+// multi-entry file that no longer parses is removed, as its owner would do.
+func (s *Sess) resync(path string, standalone bool) string {
+	b, err := os.ReadFile(path)
+	if err != nil {
+		delete(s.Store.Files, path)
+		return "absent"
+	}
+	if standalone {
+		s.Store.Files[path] = []vkit.Slot{{ID: "", Text: string(b), Raw: string(b)}}
+		return "standalone-as-left"
+	}
+	ents, torn := vkit.ReadSnapFile(path)
+	if len(torn) > 0 {
+		os.Remove(path)
+		delete(s.Store.Files, path)
+		return "torn-removed"
+	}
+	sl := make([]vkit.Slot, len(ents))
+	for i, e := range ents {
+		sl[i] = vkit.Slot{ID: e.ID, Text: vkit.Unescape(e.Body), Raw: e.Body}
+	}
+	s.Store.Files[path] = sl
+	if len(b) == 0 {
+		return "emptied"
+	}
+	return "parsed-as-left"
+}
+
 // nonDirDiff drops directory entries from a digest diff.
 func nonDirDiff(df []string) []string {
 	var out []string
@@ -297,6 +353,7 @@ type StepResult struct {
 	Got      string
 	Signals  vkit.Signals
 	Problems []Problem
+	Faulted  string // how a failed-and-reported faulted write left the file ("" = no fault took effect)
 }
 
 // hdrClass is the known-findings predicate "body-line-equals-addressed-header":
@@ -370,6 +427,10 @@ func (s *Sess) Step(t *vkit.T, o Op, m vkit.Mode) StepResult {
 
 	var text, raw string
 	var before []vkit.Slot
+	var saved *vkit.Store
+	if o.Fault {
+		saved = s.Store.Clone()
+	}
 	if o.Fail != "" {
 		res.Expected = vkit.Failed
 	} else {
@@ -381,9 +442,24 @@ func (s *Sess) Step(t *vkit.T, o Op, m vkit.Mode) StepResult {
 
 	vkit.Backdate(s.Root)
 	d0 := vkit.TakeDigest(s.Root)
+	if o.Fault {
+		faultOn(o.FaultAt)
+	}
 	s.Invoke(t, o)
+	if o.Fault {
+		faultOff()
+	}
 	res.Signals = t.Take()
 	res.Got = vkit.Classify(res.Signals)
+	if o.Fault && mutating && res.Got == vkit.Failed {
+		// the write failed and the call said so: the model takes over what is on disk now.
+		// (Anything else - "added", "updated", a pass - is a claim that the value is stored
+		// and is judged below like every other call.)
+		s.Store.Files = saved.Files
+		res.Faulted = s.resync(path, o.standalone())
+		res.Expected = vkit.Failed
+		return res
+	}
 	d1 := vkit.TakeDigest(s.Root)
 
 	add := func(kind, class, detail string) {
